@@ -48,6 +48,10 @@ def selftest():
     refmodel.selftest()
 
 
+# thorough tier: coverage-guided campaigns (atheris/libFuzzer over this module's strategy, cincoconfig instrumented)
+FUZZ = {"runs": 30000, "campaigns": 4}
+
+
 def budget(tier):
     if tier == "quick":
         return {"cases": 3000, "shards": 2}
